@@ -2,6 +2,7 @@ package main
 
 import (
 	"go/types"
+	"strconv"
 
 	"golang.org/x/tools/go/ssa"
 )
@@ -16,6 +17,8 @@ type AbsKey struct {
 	kid           StrVal
 	id            int
 }
+
+type syncEnt struct{ k, v Value }
 
 // AbsSet is the engine-native abstract jwk.Set.
 type AbsSet struct{ keys []IfaceVal }
@@ -50,6 +53,59 @@ func (e *Engine) cryptoIntrinsic(fn *ssa.Function, full string, args []Value) (V
 			return nil, false
 		}
 		return TupleVal{JBytes{JNull{}}, IfaceVal{}}, true
+	case "(*sync.Map).Load", "(*sync.Map).Store", "(*sync.Map).LoadOrStore", "(*sync.Map).Delete", "(*sync.Map).LoadAndDelete", "(*sync.Map).Swap":
+		// a sync.Map is an association list hung off its address; one goroutine
+		p := args[0].(PtrVal)
+		ents := e.syncMaps[p.slot]
+		find := func(k Value) int {
+			for i, en := range ents {
+				if e.decide(e.eq(en.k, k)) {
+					return i
+				}
+			}
+			return -1
+		}
+		i := find(args[1])
+		switch fn.Name() {
+		case "Load":
+			if i < 0 {
+				return TupleVal{IfaceVal{}, tFalse}, true
+			}
+			return TupleVal{ents[i].v, tTrue}, true
+		case "Store":
+			if i < 0 {
+				e.syncMaps[p.slot] = append(ents, syncEnt{args[1], args[2]})
+			} else {
+				ents[i].v = args[2]
+			}
+			return nil, true
+		case "Swap":
+			if i < 0 {
+				e.syncMaps[p.slot] = append(ents, syncEnt{args[1], args[2]})
+				return TupleVal{IfaceVal{}, tFalse}, true
+			}
+			old := ents[i].v
+			ents[i].v = args[2]
+			return TupleVal{old, tTrue}, true
+		case "LoadOrStore":
+			if i < 0 {
+				e.syncMaps[p.slot] = append(ents, syncEnt{args[1], args[2]})
+				return TupleVal{args[2], tFalse}, true
+			}
+			return TupleVal{ents[i].v, tTrue}, true
+		case "Delete", "LoadAndDelete":
+			var old Value = IfaceVal{}
+			if i >= 0 {
+				old = ents[i].v
+				e.syncMaps[p.slot] = append(append([]syncEnt{}, ents[:i]...), ents[i+1:]...)
+			}
+			if fn.Name() == "Delete" {
+				return nil, true
+			}
+			return TupleVal{old, mkBool(i >= 0)}, true
+		}
+	case "(*sync.Mutex).Lock", "(*sync.Mutex).Unlock", "(*sync.RWMutex).Lock", "(*sync.RWMutex).Unlock", "(*sync.RWMutex).RLock", "(*sync.RWMutex).RUnlock":
+		return nil, true // one goroutine: locks are no-ops
 	case "github.com/lestrrat-go/jwx/v2/jwk.Parse":
 		if e.parseResult == nil {
 			return nil, false
@@ -65,6 +121,21 @@ func (e *Engine) harnessExtra(fn *ssa.Function, name string, args []Value) (Valu
 		e.atomSeq++
 		k := &AbsKey{valid: args[0].(*Term), hasAlg: args[1].(*Term), algKind: e.concretize(args[2].(*Term), 0, 2),
 			algName: args[3].(StrVal), kty: args[4].(StrVal), kid: args[5].(StrVal), id: e.atomSeq}
+		slot := new(Value)
+		*slot = k
+		return IfaceVal{typ: e.sh.marks.opaque, val: PtrVal{slot}}, true
+	case "vpAbstractKeyLike": // (orig, hasAlg, algKind, algName, kid): same key material and type, other attributes
+		orig, ok := opaqueObj(args[0])
+		ok2 := false
+		var ok_ *AbsKey
+		if ok {
+			ok_, ok2 = orig.(*AbsKey)
+		}
+		if !ok2 {
+			unsupported("vpAbstractKeyLike of a non-abstract key")
+		}
+		k := &AbsKey{valid: ok_.valid, hasAlg: args[1].(*Term), algKind: e.concretize(args[2].(*Term), 0, 2),
+			algName: args[3].(StrVal), kty: ok_.kty, kid: args[4].(StrVal), id: ok_.id}
 		slot := new(Value)
 		*slot = k
 		return IfaceVal{typ: e.sh.marks.opaque, val: PtrVal{slot}}, true
@@ -131,7 +202,19 @@ func (e *Engine) invokeIntrinsic(recv IfaceVal, method *types.Func, args []Value
 		case "PublicKey":
 			return TupleVal{recv, IfaceVal{}}, true
 		case "Thumbprint":
-			return TupleVal{JBytes{JNull{}}, IfaceVal{}}, true
+			// RFC 7638: a function of the key type and key material only (not of
+			// alg, kid or use); injective on material identities
+			if !e.decide(obj.valid) {
+				return TupleVal{SliceVal{}, e.newError(mkStr("jwk: cannot compute the thumbprint of an incomplete key"))}, true
+			}
+			var bs []Value
+			for _, b := range obj.kty.bytes {
+				bs = append(bs, b)
+			}
+			for _, c := range []byte(":" + strconv.Itoa(obj.id)) {
+				bs = append(bs, mkInt(int64(c)))
+			}
+			return TupleVal{mkSlice(bs), IfaceVal{}}, true
 		}
 		unsupported("abstract jwk.Key method %s", name)
 	case *AbsSet:
